@@ -74,11 +74,21 @@ def history_sims(rep, rng, quick, *, props, reals=("poly-frac", "poly-float"), c
     """histories in which objects are moved far away and back between queries and operators
     (far-apart frames of ShapeSys): stale position-dependent caches show up as wrong answers"""
     sims, jobs = sim_jobs(["U2nest", "U2cross"] if quick else ["U2nest", "U2cross", "U2notch", "U3hole"], list(reals),
-                          num=240 if quick else 1200, depth=10, seed=runner.seed() + 21, opts={"check_c10": c10},
+                          num=700 if quick else 3000, depth=10, seed=runner.seed() + 21, opts={"check_c10": c10},
                           acts=("mkreg", "transform", "query", "bin"), gens=("f1", "F1", "r1"), maxframe=4, regs=2, maxobj=5,
                           constraint="HistDomain", tag="MCSIM_hist")
     for un, r in sims:
         rep.add_tlc("ShapeSys-sim-history/" + un, r)
+    # deterministic histories from the one-step rows: warm by one query, transform both operands
+    # by the same generators, ask again (expected answers: the row's)
+    words = [("f1",), ("r1",), ("m1",), ("s1",), ("r1", "r1"), ("f1", "r1")]
+    warms = ["aa", "ba", "ab", "bb"]
+    for un in (["U2nest", "U2cross", "U2notch"] if quick else U2 + ["U3hole", "U4nest"]):
+        u = Universe(un)
+        rows = [r for r in models.pair_rows(un) if r["op"] in ("or", "and") and r["a"] not in (0, u.full) and r["b"] not in (0, u.full) and r["cls"] == "T"]
+        rows = runner.sample(rows, 60 if quick else 400, rng)
+        for k, row in enumerate(rows):
+            jobs.append((un, list(reals)[k % len(reals)], replay.history_case(u, row, words[k % len(words)], warms[(k // len(words)) % 4]), {"check_c10": c10}))
     res = runner.pool_map(replay.run_case, jobs)
     rep.add_results("hist", res, props=props)
 
@@ -273,7 +283,7 @@ def check_C02(tier, rng, rep):
     res = runner.pool_map(queries.points_case, jobs)
     rep.add_results("points", res)
     # hand-made curved shapes with closed-form membership: chord points, control-box borders
-    gj = [(nm, nt, {}) for nm in ("lens", "stadium") for nt in ("float", "frac", "int") if not (nm == "stadium" and nt != "float")]
+    gj = [(nm, "float", {}) for nm in ("lens", "stadium")]   # rational query points on curved shapes take minutes (exact Newton projection)
     rep.add_results("gallery", runner.pool_map(queries.gallery_points_case, gj, chunksize=1))
     rep.cov["points_queried"] = sum(r.get("stats", {}).get("points", 0) for r in res)
     rep.assumptions.append("witnesses: cell centres, points at 2% and 0.1% of a cell from its sides and corners (inside the sagitta of curved edges), points on unit edges, grid vertices, far points (up to 10^4 windows away); classified exactly in the pre-image")
